@@ -2,6 +2,7 @@ import PP.Lemmas.RootsUpd
 import PP.Lemmas.RootsFind
 import PP.Lemmas.RootsLayout
 import PP.Lemmas.RootsSplit
+import PP.Lemmas.RootsMulti
 /-
 C18  Path rebasing maps remote paths to the right local files and classes.
 
@@ -555,6 +556,220 @@ theorem layout_correct_partial (fs : FS) (s s' : Snapshot) (b : Bool) {L f : Byt
 
 end PP.C18
 
+namespace PP.C18
+open PP Bytes
+
+/-- 9. Several roots at once.  A `Layout` gives the local GOROOT `lg`, the GOROOT
+`rg` of the machine that produced the dump, the pairs `(R, L)` (remote GOPATH,
+local GOPATH) in the order of `LocalGOPATHs`, and the module directories that
+may be recorded (`mods`, empty for a layout without local modules).
+Hypotheses (`MultiHyp`):
+* the snapshot is configured with `LocalGOROOT = lg`, `LocalGOPATHs` = the `L`s,
+  and `RemoteGOROOT` is empty or already `rg`;
+* `lay.Disjoint` (decidable): for any two of the remote roots `rg`, the `R`s and
+  the module directories, neither `a/` is a prefix of `b/` nor `b/` of `a/`;
+* every file of the dump is `Tame` (tests on the answers of the probes): a probe of
+  `findRoots` on it that succeeds gives a root of the layout — the GOROOT probe
+  answers `rg/src` or nothing ending in `/src`, the loop over `LocalGOPATHs`
+  answers a pair of `gps` or nothing, and a file claimed by neither probe
+  finds only admitted `go.mod`s (none when `mods = []`) and, if it exists
+  itself, its directory is an admitted `main` module or it is a clean path
+  with a `go.mod` above it.
+Conclusions, for `guessPaths`:
+(a) only roots of the layout are recorded;
+(b) every goroutine is updated with exactly these roots;
+(c) for EVERY call `c` (a stack frame, or a creator frame), by the tree it lies in:
+  * `rg/src/rel`, with `RemoteGOROOT = rg` beforehand or some file `w` of the dump
+    for which the GOROOT probe answers `rg/src` (`DetectsGoroot`): `rg` is
+    recorded and `c` gets `RelSrcPath = rel`, `LocalSrcPath = lg/src/rel`,
+    `ImportPath = dir(rel)`, class Stdlib;
+  * `R/src/rel`, with some file `w` of the dump under `R/src/` or `R/pkg/mod/`
+    that the GOROOT probe does not claim and for which the loop over
+    `LocalGOPATHs` answers `(R, L)` (`DetectsGopath`): `R ↦ L` is recorded and
+    `c` gets `rel`, `L/src/rel`, `dir(rel)`, class GOPATH;
+  * `R/pkg/mod/rel`, same witness: `rel`, `L/pkg/mod/rel`, `dir(rel)`, class GoPkg;
+  * under no root of the layout (`Unclaimed`, decidable): `c` is left untouched
+    and `updateLocations` returns false.
+  A class that was already set (the generated test main: Stdlib) is kept
+  (`setLoc`).
+The witness `w` may be the frame's own file (`layout_correct_multi_frame_*`
+below) or any other file of the dump under the same root: a frame whose own
+file is missing locally is still rebased once its root is known.
+
+Frames in local `go.mod` modules and in `go run` directories: same hypotheses,
+`layout_correct_gomod` and `layout_correct_gorun` below.
+
+Not covered: nested roots (a GOPATH, module or GOROOT inside another root —
+rejected by `Disjoint`), and two local GOPATHs that both hold a frame's
+relative path under different remote roots (excluded by the witness condition:
+the loop over `LocalGOPATHs` must answer the pair of the layout). -/
+theorem layout_correct_multi (fs : FS) (lay : Layout) (s s' : Snapshot) (b : Bool)
+    (H : MultiHyp fs lay s) (hguess : s.guessPaths fs = .ok (s', b)) :
+    (s'.remoteGOROOT = [] ∨ s'.remoteGOROOT = lay.rg) ∧
+    (∀ kv ∈ s'.remoteGOPATHs, kv ∈ lay.gps) ∧
+    (∀ kv ∈ s'.localGomods, kv ∈ lay.mods) ∧
+    s'.goroutines = s.goroutines.map
+      (fun g => (g.updateLocations s'.remoteGOROOT lay.lg s'.localGomods s'.remoteGOPATHs).1) ∧
+    ∀ c : Call,
+      (∀ rel, c.remoteSrcPath = lay.rg ++ srcSep ++ rel → lay.rg ≠ [] →
+        (s.remoteGOROOT = lay.rg ∨ ∃ w ∈ getFiles s.goroutines, DetectsGoroot lay fs w) →
+        s'.remoteGOROOT = lay.rg ∧
+        c.updateLocations s'.remoteGOROOT lay.lg s'.localGomods s'.remoteGOPATHs =
+          ({ c with relSrcPath := rel, localSrcPath := lay.lg ++ srcSep ++ rel,
+                    importPath := importOfRel rel c.importPath, location := setLoc c .stdlib }, true)) ∧
+      (∀ R L rel, c.remoteSrcPath = R ++ srcSep ++ rel →
+        (∃ w ∈ getFiles s.goroutines, DetectsGopath lay fs w R L) →
+        (R, L) ∈ s'.remoteGOPATHs ∧
+        c.updateLocations s'.remoteGOROOT lay.lg s'.localGomods s'.remoteGOPATHs =
+          ({ c with relSrcPath := rel, localSrcPath := L ++ srcSep ++ rel,
+                    importPath := importOfRel rel c.importPath, location := setLoc c .gopath }, true)) ∧
+      (∀ R L rel, c.remoteSrcPath = R ++ pkgmodSep ++ rel →
+        (∃ w ∈ getFiles s.goroutines, DetectsGopath lay fs w R L) →
+        (R, L) ∈ s'.remoteGOPATHs ∧
+        c.updateLocations s'.remoteGOROOT lay.lg s'.localGomods s'.remoteGOPATHs =
+          ({ c with relSrcPath := rel, localSrcPath := L ++ pkgmodSep ++ rel,
+                    importPath := importOfRel rel c.importPath, location := setLoc c .goPkg }, true)) ∧
+      (Unclaimed lay c.remoteSrcPath →
+        c.updateLocations s'.remoteGOROOT lay.lg s'.localGomods s'.remoteGOPATHs = (c, false)) := by
+  obtain ⟨st, hst, e1, e2, e3, e4⟩ := guessPaths_shape fs s s' b hguess
+  have hfin : Inv lay st := H.inv hst
+  have hloop := H.loop hst
+  rw [e1, e2, e3]
+  refine ⟨hfin.goroot, hfin.gopaths, hfin.gomods, by rw [e4, H.localGoroot], ?_⟩
+  intro c
+  refine ⟨?_, ?_, ?_, ?_⟩
+  · intro rel hc hne hw
+    have hg : st.goroot = lay.rg := by
+      rcases hw with h0 | ⟨w, hwf, hw⟩
+      · have := (findRootsLoop_mono _ hloop).goroot (by rw [h0]; exact hne)
+        rw [this]; exact h0
+      · exact hw.final H.disjoint hne H.tame hwf H.inv0 hloop
+    refine ⟨hg, ?_⟩
+    rw [hg]
+    exact update_goroot hne hc
+  · intro R L rel hc ⟨w, hwf, hw⟩
+    obtain ⟨hk, hv⟩ := hw.final H.disjoint H.tame hwf H.inv0 hloop
+    exact ⟨hv ▸ AMap.get_of_mem_keys hk, update_src H.disjoint hfin hc hk hv⟩
+  · intro R L rel hc ⟨w, hwf, hw⟩
+    obtain ⟨hk, hv⟩ := hw.final H.disjoint H.tame hwf H.inv0 hloop
+    exact ⟨hv ▸ AMap.get_of_mem_keys hk, update_pkgmod H.disjoint hfin hc hk hv⟩
+  · intro hu
+    exact update_unclaimed hfin hu
+
+end PP.C18
+
+namespace PP.C18
+open PP Bytes
+
+/-- 9a. A stack frame under `R/src/` whose own file is the witness.  The side
+conditions are on the probes `findRoots` makes on this file, in the order it
+makes them: the GOROOT probe does not answer a path ending in `/src` (`hG`); for
+every local GOPATH listed before `L`, neither its `/src` nor its `/pkg/mod` probe
+answers a root (`hpre`); the probe under `L/src` answers `R/src` (`hhit`: the file
+exists as `L/src/rel` and no longer suffix of the path exists under `L/src`, see
+`isRootedIn_of_present`).  Probes that come later are not made and are not
+constrained. -/
+theorem layout_correct_multi_frame_gopath (fs : FS) (lay : Layout) (s s' : Snapshot) (b : Bool)
+    (H : MultiHyp fs lay s) (hguess : s.guessPaths fs = .ok (s', b))
+    {g : Goroutine} (hg : g ∈ s.goroutines) {c : Call} (hc : c ∈ g.sig.stack.calls)
+    {R L rel : Bytes} {pre post : List (Bytes × Bytes)} (hgps : lay.gps = pre ++ (R, L) :: post)
+    (hf : c.remoteSrcPath = R ++ srcSep ++ rel)
+    (hG : hasSuffix (isRootedIn fs (lay.lg ++ srcDir) (splitPath c.remoteSrcPath)) srcDir = false)
+    (hpre : ∀ p ∈ pre, QuietGopath fs (splitPath c.remoteSrcPath) p.2)
+    (hhit : isRootedIn fs (L ++ srcDir) (splitPath c.remoteSrcPath) = R ++ srcDir) :
+    (R, L) ∈ s'.remoteGOPATHs ∧
+    c.updateLocations s'.remoteGOROOT lay.lg s'.localGomods s'.remoteGOPATHs =
+      ({ c with relSrcPath := rel, localSrcPath := L ++ srcSep ++ rel,
+                importPath := importOfRel rel c.importPath, location := setLoc c .gopath }, true) :=
+  ((layout_correct_multi fs lay s s' b H hguess).2.2.2.2 c).2.1 R L rel hf
+    ⟨c.remoteSrcPath, mem_getFiles.mpr ⟨g, hg, c, hc, rfl⟩, DetectsGopath.of_src_probe hgps hf hG hpre hhit⟩
+
+/-- 9b. A stack frame under `R/pkg/mod/` (module cache) whose own file is the
+witness: as 9a, and the probe under `L/src` answers nothing ending in `/src`
+(`hq`) before the probe under `L/pkg/mod` answers `R/pkg/mod` (`hhit`). -/
+theorem layout_correct_multi_frame_gopkg (fs : FS) (lay : Layout) (s s' : Snapshot) (b : Bool)
+    (H : MultiHyp fs lay s) (hguess : s.guessPaths fs = .ok (s', b))
+    {g : Goroutine} (hg : g ∈ s.goroutines) {c : Call} (hc : c ∈ g.sig.stack.calls)
+    {R L rel : Bytes} {pre post : List (Bytes × Bytes)} (hgps : lay.gps = pre ++ (R, L) :: post)
+    (hf : c.remoteSrcPath = R ++ pkgmodSep ++ rel)
+    (hG : hasSuffix (isRootedIn fs (lay.lg ++ srcDir) (splitPath c.remoteSrcPath)) srcDir = false)
+    (hpre : ∀ p ∈ pre, QuietGopath fs (splitPath c.remoteSrcPath) p.2)
+    (hq : hasSuffix (isRootedIn fs (L ++ srcDir) (splitPath c.remoteSrcPath)) srcDir = false)
+    (hhit : isRootedIn fs (L ++ pkgmodDir) (splitPath c.remoteSrcPath) = R ++ pkgmodDir) :
+    (R, L) ∈ s'.remoteGOPATHs ∧
+    c.updateLocations s'.remoteGOROOT lay.lg s'.localGomods s'.remoteGOPATHs =
+      ({ c with relSrcPath := rel, localSrcPath := L ++ pkgmodSep ++ rel,
+                importPath := importOfRel rel c.importPath, location := setLoc c .goPkg }, true) :=
+  ((layout_correct_multi fs lay s s' b H hguess).2.2.2.2 c).2.2.1 R L rel hf
+    ⟨c.remoteSrcPath, mem_getFiles.mpr ⟨g, hg, c, hc, rfl⟩,
+      DetectsGopath.of_pkgmod_probe hgps hf hG hpre hq hhit⟩
+
+/-- 9c. A stack frame under `rg/src/` whose own file is the witness: the probe
+under `LocalGOROOT/src` answers `rg/src` (the file exists as `lg/src/rel` and no
+longer suffix of the path exists under `lg/src`).  It is the first probe made,
+so nothing else is constrained. -/
+theorem layout_correct_multi_frame_stdlib (fs : FS) (lay : Layout) (s s' : Snapshot) (b : Bool)
+    (H : MultiHyp fs lay s) (hguess : s.guessPaths fs = .ok (s', b)) (hne : lay.rg ≠ [])
+    {g : Goroutine} (hg : g ∈ s.goroutines) {c : Call} (hc : c ∈ g.sig.stack.calls) {rel : Bytes}
+    (hf : c.remoteSrcPath = lay.rg ++ srcSep ++ rel)
+    (hhit : isRootedIn fs (lay.lg ++ srcDir) (splitPath c.remoteSrcPath) = lay.rg ++ srcDir) :
+    s'.remoteGOROOT = lay.rg ∧
+    c.updateLocations s'.remoteGOROOT lay.lg s'.localGomods s'.remoteGOPATHs =
+      ({ c with relSrcPath := rel, localSrcPath := lay.lg ++ srcSep ++ rel,
+                importPath := importOfRel rel c.importPath, location := setLoc c .stdlib }, true) :=
+  ((layout_correct_multi fs lay s s' b H hguess).2.2.2.2 c).1 rel hf hne
+    (Or.inr ⟨c.remoteSrcPath, mem_getFiles.mpr ⟨g, hg, c, hc, rfl⟩,
+      ⟨by rw [hf]; exact hasPrefix_root_sep _ _ _, hhit⟩⟩)
+
+end PP.C18
+
+namespace PP.C18
+open PP Bytes
+
+/-- 10. Local `go.mod` modules, same hypotheses as `layout_correct_multi` (the
+layout lists the module directories with their module paths in `mods`; they are
+part of `Disjoint`).  For every call `c` whose path is `k/rel`, if some file
+`w` of the dump is a clean path that neither the GOROOT probe nor the loop over
+`LocalGOPATHs` claims, has `k` among its directories `parts[:i]`, `k/go.mod`
+declares `module m` and no directory between `k` and `w` has a `go.mod`
+(`DetectsGomod`), then `k ↦ m` is recorded and `c` gets `RelSrcPath = rel`,
+`LocalSrcPath` = its remote path, `ImportPath = m/dir(rel)` (`m` when `rel` has no
+directory), class GoMod.  Whatever the go.mod cache holds when `w` is reached
+(`findModule_trace`): the cache only short-cuts directories without a `go.mod`. -/
+theorem layout_correct_gomod (fs : FS) (lay : Layout) (s s' : Snapshot) (b : Bool)
+    (H : MultiHyp fs lay s) (hguess : s.guessPaths fs = .ok (s', b))
+    (c : Call) {k m rel : Bytes} (hc : c.remoteSrcPath = k ++ b!"/" ++ rel)
+    (hw : ∃ w ∈ getFiles s.goroutines, DetectsGomod lay fs w k m) :
+    (k, m) ∈ s'.localGomods ∧
+    c.updateLocations s'.remoteGOROOT lay.lg s'.localGomods s'.remoteGOPATHs =
+      ({ c with relSrcPath := rel, localSrcPath := c.remoteSrcPath,
+                importPath := gomodImport m rel, location := setLoc c .goMod }, true) := by
+  obtain ⟨st, hst, e1, e2, e3, _⟩ := guessPaths_shape fs s s' b hguess
+  obtain ⟨w, hwf, hw⟩ := hw
+  obtain ⟨hk, hv⟩ := hw.final H.disjoint H.tame hwf H.inv0 (H.loop hst)
+  rw [e1, e2, e3]
+  exact ⟨hv ▸ AMap.get_of_mem_keys hk, update_gomod H.disjoint (H.inv hst) hc hk hv⟩
+
+/-- 10'. Files that exist under their own path and have no `go.mod` above them
+(`go run`): when such a file `w` of the dump is claimed by neither probe
+(`DetectsGorun`), `path.Dir(w) ↦ "main"` is recorded and every call whose path
+is `path.Dir(w)/rel` gets `RelSrcPath = rel`, `LocalSrcPath` = its remote path,
+`ImportPath = main/dir(rel)` (`main` when `rel` has no directory), class GoMod. -/
+theorem layout_correct_gorun (fs : FS) (lay : Layout) (s s' : Snapshot) (b : Bool)
+    (H : MultiHyp fs lay s) (hguess : s.guessPaths fs = .ok (s', b))
+    (c : Call) {w rel : Bytes} (hwf : w ∈ getFiles s.goroutines) (hw : DetectsGorun lay fs w)
+    (hc : c.remoteSrcPath = pathDir w ++ b!"/" ++ rel) :
+    (pathDir w, b!"main") ∈ s'.localGomods ∧
+    c.updateLocations s'.remoteGOROOT lay.lg s'.localGomods s'.remoteGOPATHs =
+      ({ c with relSrcPath := rel, localSrcPath := c.remoteSrcPath,
+                importPath := gomodImport b!"main" rel, location := setLoc c .goMod }, true) := by
+  obtain ⟨st, hst, e1, e2, e3, _⟩ := guessPaths_shape fs s s' b hguess
+  obtain ⟨hk, hv⟩ := hw.final H.disjoint H.tame hwf H.inv0 (H.loop hst)
+  rw [e1, e2, e3]
+  exact ⟨hv ▸ AMap.get_of_mem_keys hk, update_gomod H.disjoint (H.inv hst) hc hk hv⟩
+
+end PP.C18
+
 /-! ### non-vacuity -/
 namespace PP.C18.Examples
 open PP Bytes PP.C18
@@ -656,6 +871,273 @@ example : [] ++ srcDir = pathJoin ((splitPath b!"/src/fmt/print.go").take 1) := 
 example : (snap [b!"/src/fmt/print.go"]).findRoots fs =
     .ok { goroot := [], gopaths := [], gomods := [], missing := 0, cache := [] } := by rfl
 
+
+/-! #### a layout with GOROOT, two GOPATHs and a module cache -/
+
+/-- local disk: the standard library under `/G`, package `p` under the first
+GOPATH `/L1`, package `q` and a module-cache copy of `m@v1` under the second
+GOPATH `/L2`; no go.mod anywhere -/
+def fsM : FS :=
+  { isFile := fun p => p == b!"/G/src/fmt/print.go" || p == b!"/L1/src/p/a.go" ||
+      p == b!"/L2/src/q/b.go" || p == b!"/L2/pkg/mod/m@v1/c.go",
+    readFile := fun _ => none }
+
+/-- the dump was produced under `/g` (GOROOT) and the GOPATHs `/r1`, `/r2` -/
+def layM : Layout := { lg := b!"/G", rg := b!"/g", gps := [(b!"/r1", b!"/L1"), (b!"/r2", b!"/L2")] }
+
+/-- one frame per tree, one frame under `/r1` whose file is missing locally (it
+sorts before the witness of `/r1`, so it is probed, in vain, before the root is
+known), one frame under no root -/
+def snapM : Snapshot :=
+  { goroutines := [{ sig := { stack := { calls := [b!"/g/src/fmt/print.go", b!"/r1/src/p/a.go",
+      b!"/r2/src/q/b.go", b!"/r2/pkg/mod/m@v1/c.go", b!"/r1/src/a/gone.go", b!"/elsewhere/x.go"].map call } } }],
+    localGOROOT := b!"/G", localGOPATHs := [b!"/L1", b!"/L2"] }
+
+example : layM.Disjoint := by decide
+/-- a remote GOPATH inside another one is rejected by `Disjoint` -/
+example : ¬ ({ layM with gps := [(b!"/r1", b!"/L1"), (b!"/r1/src/q", b!"/L2")] } : Layout).Disjoint := by decide
+
+theorem filesM : getFiles snapM.goroutines = [b!"/elsewhere/x.go", b!"/g/src/fmt/print.go",
+    b!"/r1/src/a/gone.go", b!"/r1/src/p/a.go", b!"/r2/pkg/mod/m@v1/c.go", b!"/r2/src/q/b.go"] := by rfl
+
+theorem detM_goroot : DetectsGoroot layM fsM b!"/g/src/fmt/print.go" := ⟨by decide, by decide⟩
+theorem detM_r1 : DetectsGopath layM fsM b!"/r1/src/p/a.go" b!"/r1" b!"/L1" :=
+  ⟨Or.inl (by decide), by decide, by rfl⟩
+/-- second GOPATH, `/src` tree: the probes under `/L1` are made first and are silent -/
+theorem detM_r2_src : DetectsGopath layM fsM b!"/r2/src/q/b.go" b!"/r2" b!"/L2" :=
+  DetectsGopath.of_src_probe (pre := [(b!"/r1", b!"/L1")]) (post := []) (rel := b!"q/b.go") rfl (by decide) (by decide)
+    (by intro p hp; simp at hp; subst hp; decide) (by decide)
+/-- second GOPATH, module cache: moreover the probe under `/L2/src` is silent -/
+theorem detM_r2_mod : DetectsGopath layM fsM b!"/r2/pkg/mod/m@v1/c.go" b!"/r2" b!"/L2" :=
+  DetectsGopath.of_pkgmod_probe (pre := [(b!"/r1", b!"/L1")]) (post := []) (rel := b!"m@v1/c.go") rfl (by decide)
+    (by decide) (by intro p hp; simp at hp; subst hp; decide) (by decide) (by decide)
+
+/-- the probe condition read on the disk: `/L2/src/q/b.go` exists, and no longer
+suffix of `/r2/src/q/b.go` exists under `/L2/src` -/
+example : isRootedIn fsM b!"/L2/src" (splitPath b!"/r2/src/q/b.go") = b!"/r2" ++ b!"/" ++ pathJoin [b!"src"] :=
+  isRootedIn_of_present (pR := [b!"/r2"]) (pDir := [b!"src"]) (pRel := [b!"q", b!"b.go"]) (by decide) (by decide)
+    (by decide) (by decide) (by decide) (by decide)
+    (by intro j h1 h2
+        have : j = 1 := by simp at h2; omega
+        subst this; decide)
+
+theorem silentM (f : Bytes) (hf : f = b!"/elsewhere/x.go" ∨ f = b!"/r1/src/a/gone.go") : Tame layM fsM f := by
+  apply tame_of_silent
+  · rcases hf with rfl | rfl <;> decide
+  · rcases hf with rfl | rfl <;> rfl
+  · intro i _ _; rfl
+  · rcases hf with rfl | rfl <;> decide
+
+/-- every hypothesis of `layout_correct_multi` holds for this layout -/
+theorem hypM : MultiHyp fsM layM snapM := by
+  refine ⟨rfl, rfl, Or.inl rfl, by decide, ?_⟩
+  intro f hf
+  rw [filesM] at hf
+  simp only [List.mem_cons, List.not_mem_nil, or_false] at hf
+  rcases hf with rfl | rfl | rfl | rfl | rfl | rfl
+  · exact silentM _ (Or.inl rfl)
+  · exact detM_goroot.tame (by intro k l h; have e : findGopath fsM (splitPath b!"/g/src/fmt/print.go") layM.locals = .ok none := by rfl
+                               rw [e] at h; cases h)
+  · exact silentM _ (Or.inr rfl)
+  · exact detM_r1.tame (by decide)
+  · exact detM_r2_mod.tame (by decide)
+  · exact detM_r2_src.tame (by decide)
+
+example : Unclaimed layM b!"/elsewhere/x.go" := ⟨by decide, by decide, by decide⟩
+
+/-- … and the theorem gives, for this dump: both GOPATHs and the GOROOT recorded,
+each frame rebased into its tree — the frame whose file is missing locally too —
+and the frame under no root left alone. -/
+example (s' : Snapshot) (b : Bool) (h : snapM.guessPaths fsM = .ok (s', b)) :
+    s'.remoteGOROOT = b!"/g" ∧ (b!"/r1", b!"/L1") ∈ s'.remoteGOPATHs ∧ (b!"/r2", b!"/L2") ∈ s'.remoteGOPATHs ∧
+    (call b!"/g/src/fmt/print.go").updateLocations s'.remoteGOROOT b!"/G" s'.localGomods s'.remoteGOPATHs =
+      ({ call b!"/g/src/fmt/print.go" with
+           relSrcPath := b!"fmt/print.go", localSrcPath := b!"/G/src/fmt/print.go",
+           importPath := b!"fmt", location := .stdlib }, true) ∧
+    (call b!"/r2/pkg/mod/m@v1/c.go").updateLocations s'.remoteGOROOT b!"/G" s'.localGomods s'.remoteGOPATHs =
+      ({ call b!"/r2/pkg/mod/m@v1/c.go" with
+           relSrcPath := b!"m@v1/c.go", localSrcPath := b!"/L2/pkg/mod/m@v1/c.go",
+           importPath := b!"m@v1", location := .goPkg }, true) ∧
+    (call b!"/r1/src/a/gone.go").updateLocations s'.remoteGOROOT b!"/G" s'.localGomods s'.remoteGOPATHs =
+      ({ call b!"/r1/src/a/gone.go" with
+           relSrcPath := b!"a/gone.go", localSrcPath := b!"/L1/src/a/gone.go",
+           importPath := b!"a", location := .gopath }, true) ∧
+    (call b!"/elsewhere/x.go").updateLocations s'.remoteGOROOT b!"/G" s'.localGomods s'.remoteGOPATHs =
+      (call b!"/elsewhere/x.go", false) := by
+  have T := (layout_correct_multi fsM layM snapM s' b hypM h).2.2.2.2
+  have hr1 : ∃ w ∈ getFiles snapM.goroutines, DetectsGopath layM fsM w b!"/r1" b!"/L1" :=
+    ⟨_, by rw [filesM]; simp, detM_r1⟩
+  have hr2 : ∃ w ∈ getFiles snapM.goroutines, DetectsGopath layM fsM w b!"/r2" b!"/L2" :=
+    ⟨_, by rw [filesM]; simp, detM_r2_mod⟩
+  have t1 := (T (call b!"/g/src/fmt/print.go")).1 b!"fmt/print.go" rfl (by decide)
+    (Or.inr ⟨_, by rw [filesM]; simp, detM_goroot⟩)
+  have t2 := (T (call b!"/r2/pkg/mod/m@v1/c.go")).2.2.1 b!"/r2" b!"/L2" b!"m@v1/c.go" rfl hr2
+  have t3 := (T (call b!"/r1/src/a/gone.go")).2.1 b!"/r1" b!"/L1" b!"a/gone.go" rfl hr1
+  have t4 := (T (call b!"/elsewhere/x.go")).2.2.2 ⟨by decide, by decide, by decide⟩
+  exact ⟨t1.1, t3.1, t2.1, t1.2, t2.2, t3.2, t4⟩
+
+/-- `guessPaths` does return, so the conclusions are about an actual result -/
+example : ∃ s' b, snapM.guessPaths fsM = .ok (s', b) ∧ s'.remoteGOROOT = b!"/g" ∧
+    (b!"/r2", b!"/L2") ∈ s'.remoteGOPATHs := by
+  obtain ⟨⟨s', b⟩, h⟩ := guessPaths_no_panic fsM snapM
+  have T := (layout_correct_multi fsM layM snapM s' b hypM h).2.2.2.2
+  exact ⟨s', b, h,
+    ((T (call b!"/g/src/fmt/print.go")).1 b!"fmt/print.go" rfl (by decide)
+      (Or.inr ⟨_, by rw [filesM]; simp, detM_goroot⟩)).1,
+    ((T (call b!"/r2/src/q/b.go")).2.1 b!"/r2" b!"/L2" b!"q/b.go" rfl ⟨_, by rw [filesM]; simp, detM_r2_src⟩).1⟩
+
+/-- the executable model agrees (and the hypothesis `h` above is satisfiable) -/
+example : snapM.findRoots fsM =
+    .ok { goroot := b!"/g", gopaths := [(b!"/r1", b!"/L1"), (b!"/r2", b!"/L2")], gomods := [], missing := 2,
+          cache := [b!"/r1", b!"/r1/src", b!"/r1/src/a", b!"/elsewhere"] } := by rfl
+
+
+/-! #### the same with a local go.mod module and a `go run` file -/
+
+def fsG : FS :=
+  { isFile := fun p => p == b!"/G/src/fmt/print.go" || p == b!"/L1/src/p/a.go" ||
+      p == b!"/w/m/sub/x.go" || p == b!"/w/m/y.go" || p == b!"/tmp/run/main.go",
+    readFile := fun p => if p == b!"/w/m/go.mod" then some b!"module example.com/m\n" else none }
+
+def layG : Layout :=
+  { lg := b!"/G", rg := b!"/g", gps := [(b!"/r1", b!"/L1")],
+    mods := [(b!"/w/m", b!"example.com/m"), (b!"/tmp/run", b!"main")] }
+
+/-- `/w/a/z.go` is missing locally and sorts before the module's files: its walk
+puts `/w/a` and `/w` in the go.mod cache before the module is looked for -/
+def snapG : Snapshot :=
+  { goroutines := [{ sig := { stack := { calls := [b!"/g/src/fmt/print.go", b!"/r1/src/p/a.go",
+      b!"/w/m/sub/x.go", b!"/w/m/y.go", b!"/tmp/run/main.go", b!"/w/a/z.go"].map call } } }],
+    localGOROOT := b!"/G", localGOPATHs := [b!"/L1"] }
+
+example : layG.Disjoint := by decide
+
+theorem filesG : getFiles snapG.goroutines = [b!"/g/src/fmt/print.go", b!"/r1/src/p/a.go",
+    b!"/tmp/run/main.go", b!"/w/a/z.go", b!"/w/m/sub/x.go", b!"/w/m/y.go"] := by rfl
+
+theorem detG_goroot : DetectsGoroot layG fsG b!"/g/src/fmt/print.go" := ⟨by decide, by decide⟩
+theorem detG_r1 : DetectsGopath layG fsG b!"/r1/src/p/a.go" b!"/r1" b!"/L1" :=
+  ⟨Or.inl (by decide), by decide, by rfl⟩
+
+theorem detG_mod_x : DetectsGomod layG fsG b!"/w/m/sub/x.go" b!"/w/m" b!"example.com/m" := by
+  refine ⟨by decide, by decide, by rfl, 2, by decide, by decide, by decide, by rfl, ?_⟩
+  intro j h1 h2
+  have hl : (splitPath b!"/w/m/sub/x.go").length = 4 := by decide
+  have : j = 3 := by omega
+  subst this; rfl
+
+theorem detG_mod_y : DetectsGomod layG fsG b!"/w/m/y.go" b!"/w/m" b!"example.com/m" := by
+  refine ⟨by decide, by decide, by rfl, 2, by decide, by decide, by decide, by rfl, ?_⟩
+  intro j h1 h2
+  have hl : (splitPath b!"/w/m/y.go").length = 3 := by decide
+  omega
+
+theorem nomodG (f : Bytes) (hf : f = b!"/tmp/run/main.go" ∨ f = b!"/w/a/z.go") (i : Nat) (h1 : 0 < i)
+    (h2 : i < (splitPath f).length) : modAt fsG (pathJoin ((splitPath f).take i)) = none := by
+  rcases hf with rfl | rfl
+  · have hl : (splitPath b!"/tmp/run/main.go").length = 3 := by decide
+    have hi : i = 1 ∨ i = 2 := by omega
+    rcases hi with rfl | rfl <;> rfl
+  · have hl : (splitPath b!"/w/a/z.go").length = 3 := by decide
+    have hi : i = 1 ∨ i = 2 := by omega
+    rcases hi with rfl | rfl <;> rfl
+
+theorem detG_run : DetectsGorun layG fsG b!"/tmp/run/main.go" :=
+  ⟨by decide, by decide, by rfl, nomodG _ (Or.inl rfl), by decide⟩
+
+theorem modsG (f : Bytes) (hf : f = b!"/w/m/sub/x.go" ∨ f = b!"/w/m/y.go") (i : Nat) (m' : Bytes) (h1 : 0 < i)
+    (h2 : i < (splitPath f).length) (h : modAt fsG (pathJoin ((splitPath f).take i)) = some m') :
+    (pathJoin ((splitPath f).take i), m') ∈ layG.mods := by
+  rcases hf with rfl | rfl
+  · have hl : (splitPath b!"/w/m/sub/x.go").length = 4 := by decide
+    have hi : i = 1 ∨ i = 2 ∨ i = 3 := by omega
+    rcases hi with rfl | rfl | rfl
+    · have e : modAt fsG (pathJoin ((splitPath b!"/w/m/sub/x.go").take 1)) = none := by rfl
+      rw [e] at h; cases h
+    · have e : modAt fsG (pathJoin ((splitPath b!"/w/m/sub/x.go").take 2)) = some b!"example.com/m" := by rfl
+      rw [e] at h; cases h; decide
+    · have e : modAt fsG (pathJoin ((splitPath b!"/w/m/sub/x.go").take 3)) = none := by rfl
+      rw [e] at h; cases h
+  · have hl : (splitPath b!"/w/m/y.go").length = 3 := by decide
+    have hi : i = 1 ∨ i = 2 := by omega
+    rcases hi with rfl | rfl
+    · have e : modAt fsG (pathJoin ((splitPath b!"/w/m/y.go").take 1)) = none := by rfl
+      rw [e] at h; cases h
+    · have e : modAt fsG (pathJoin ((splitPath b!"/w/m/y.go").take 2)) = some b!"example.com/m" := by rfl
+      rw [e] at h; cases h; decide
+
+/-- every hypothesis of `layout_correct_multi` / `layout_correct_gomod` /
+`layout_correct_gorun` holds for this layout -/
+theorem hypG : MultiHyp fsG layG snapG := by
+  refine ⟨rfl, rfl, Or.inl rfl, by decide, ?_⟩
+  intro f hf
+  rw [filesG] at hf
+  simp only [List.mem_cons, List.not_mem_nil, or_false] at hf
+  rcases hf with rfl | rfl | rfl | rfl | rfl | rfl
+  · exact detG_goroot.tame (by intro k l h; have e : findGopath fsG (splitPath b!"/g/src/fmt/print.go") layG.locals = .ok none := by rfl
+                               rw [e] at h; cases h)
+  · exact detG_r1.tame (by decide)
+  · exact detG_run.tame (by decide)
+  · exact tame_of_silent (by decide) (by rfl) (nomodG _ (Or.inr rfl)) (by decide)
+  · exact detG_mod_x.tame (modsG _ (Or.inl rfl))
+  · exact detG_mod_y.tame (modsG _ (Or.inr rfl))
+
+/-- … and the theorems give: the module and the `go run` directory recorded, the
+frames in them classed GoMod with their own path as local path and the import
+path built from the module path. -/
+example (s' : Snapshot) (b : Bool) (h : snapG.guessPaths fsG = .ok (s', b)) :
+    (b!"/w/m", b!"example.com/m") ∈ s'.localGomods ∧ (b!"/tmp/run", b!"main") ∈ s'.localGomods ∧
+    (call b!"/w/m/sub/x.go").updateLocations s'.remoteGOROOT b!"/G" s'.localGomods s'.remoteGOPATHs =
+      ({ call b!"/w/m/sub/x.go" with
+           relSrcPath := b!"sub/x.go", localSrcPath := b!"/w/m/sub/x.go",
+           importPath := b!"example.com/m/sub", location := .goMod }, true) ∧
+    (call b!"/w/m/y.go").updateLocations s'.remoteGOROOT b!"/G" s'.localGomods s'.remoteGOPATHs =
+      ({ call b!"/w/m/y.go" with
+           relSrcPath := b!"y.go", localSrcPath := b!"/w/m/y.go",
+           importPath := b!"example.com/m", location := .goMod }, true) ∧
+    (call b!"/tmp/run/main.go").updateLocations s'.remoteGOROOT b!"/G" s'.localGomods s'.remoteGOPATHs =
+      ({ call b!"/tmp/run/main.go" with
+           relSrcPath := b!"main.go", localSrcPath := b!"/tmp/run/main.go",
+           importPath := b!"main", location := .goMod }, true) := by
+  have hx : ∃ w ∈ getFiles snapG.goroutines, DetectsGomod layG fsG w b!"/w/m" b!"example.com/m" :=
+    ⟨_, by rw [filesG]; simp, detG_mod_x⟩
+  have t1 := layout_correct_gomod fsG layG snapG s' b hypG h (call b!"/w/m/sub/x.go") (rel := b!"sub/x.go") rfl hx
+  have t2 := layout_correct_gomod fsG layG snapG s' b hypG h (call b!"/w/m/y.go") (rel := b!"y.go") rfl hx
+  have t3 := layout_correct_gorun fsG layG snapG s' b hypG h (call b!"/tmp/run/main.go") (w := b!"/tmp/run/main.go")
+    (rel := b!"main.go") (by rw [filesG]; simp) detG_run (by decide)
+  exact ⟨t1.1, t3.1, t1.2, t2.2, t3.2⟩
+
+/-- the executable model agrees; the cache holds `/w` when the module is looked for -/
+example : snapG.findRoots fsG =
+    .ok { goroot := b!"/g", gopaths := [(b!"/r1", b!"/L1")],
+          gomods := [(b!"/tmp/run", b!"main"), (b!"/w/m", b!"example.com/m")], missing := 1,
+          cache := [b!"/w/m", b!"/w/m/sub", b!"/w", b!"/w/a", b!"/tmp", b!"/tmp/run"] } := by rfl
+
+
+/-! #### what the witness condition excludes -/
+
+/-- The same relative path in an EARLIER local GOPATH captures the remote root:
+`/r2/src/q/b.go` exists under `/L2/src`, but also under `/L1/src`, which is
+probed first.  `/r2 ↦ /L1` is recorded, and the second frame, which exists
+only under `/L2`, is sent to a file that does not exist.  (`DetectsGopath`
+fails: the loop answers `(/r2, /L1)`, not a pair of the layout.) -/
+def fsDup : FS :=
+  { isFile := fun p => p == b!"/L1/src/q/b.go" || p == b!"/L2/src/q/b.go" || p == b!"/L2/src/q/only2.go",
+    readFile := fun _ => none }
+
+example : findGopath fsDup (splitPath b!"/r2/src/q/b.go") [b!"/L1", b!"/L2"] = .ok (some (b!"/r2", b!"/L1")) := by rfl
+
+example : ({ goroutines := [{ sig := { stack := { calls := [b!"/r2/src/q/b.go", b!"/r2/src/q/only2.go"].map call } } }],
+             localGOROOT := b!"/G", localGOPATHs := [b!"/L1", b!"/L2"] } : Snapshot).findRoots fsDup =
+    .ok { goroot := [], gopaths := [(b!"/r2", b!"/L1")], gomods := [], missing := 0, cache := [] } := by rfl
+
+example : let r := (call b!"/r2/src/q/only2.go").updateLocations [] b!"/G" [] [(b!"/r2", b!"/L1")]
+    (r.1.localSrcPath, fsDup.isFile r.1.localSrcPath, fsDup.isFile b!"/L2/src/q/only2.go") =
+      (b!"/L1/src/q/only2.go", false, true) := by
+  unfold Call.updateLocations Call.updateLocations?
+  rw [sortedByLen_single]
+  decide
+
 end PP.C18.Examples
 
 #print axioms PP.C18.resolved_shape
@@ -689,3 +1171,9 @@ end PP.C18.Examples
 #print axioms PP.C18.detected_goroot_clean
 #print axioms PP.C18.guessPaths_shape
 #print axioms PP.C18.layout_correct_partial
+#print axioms PP.C18.layout_correct_multi
+#print axioms PP.C18.layout_correct_multi_frame_gopath
+#print axioms PP.C18.layout_correct_multi_frame_gopkg
+#print axioms PP.C18.layout_correct_multi_frame_stdlib
+#print axioms PP.C18.layout_correct_gomod
+#print axioms PP.C18.layout_correct_gorun
